@@ -62,6 +62,7 @@ type unitCfg struct {
 	InitPkgs []string          `json:"initPkgs"`
 	NoInit   []string          `json:"noInit"`
 	InlineGo bool              `json:"inlineGo"`
+	DeferGo  bool              `json:"deferGo"` // go statements are queued; see chan.go
 	Bounds   string            `json:"bounds"`
 	Assumes  []string          `json:"assumptions"`
 	NoNativeCovers bool        `json:"noNativeCovers"`
@@ -96,6 +97,7 @@ type runConfig struct {
 	trace      bool
 	smtLog     string
 	inlineGo   bool
+	deferGo    bool
 	stubs      map[string]string
 	params     map[string]int
 	repoModule string
@@ -493,7 +495,7 @@ func (c *checker) runUnit(u *unitCfg, entryOnly string) {
 		solver = u.Solver
 	}
 	rc := &runConfig{solver: solver, timeoutMs: tc.TimeoutMs, unwind: tc.Unwind, maxSteps: tc.MaxSteps, verbose: c.verbose,
-		trace: c.trace, smtLog: c.smtLog, inlineGo: u.InlineGo, stubs: u.Stubs, params: tc.Params, repoModule: repoModule}
+		trace: c.trace, smtLog: c.smtLog, inlineGo: u.InlineGo, deferGo: u.DeferGo, stubs: u.Stubs, params: tc.Params, repoModule: repoModule}
 	if rc.stubs == nil {
 		rc.stubs = map[string]string{}
 	}
